@@ -704,6 +704,20 @@ func (f *flight) applyFault(e *env) bool {
 					kind = "xm_sig"
 				}
 			}
+			if t.Chance(250) {
+				// instead of replacing the parameter, say it twice: the genuine
+				// value where it was and the other value after all four
+				// parameters (a parameter may occur once; a header that names
+				// two origins, destinations, keys or signatures is malformed)
+				name := map[int]string{6: "origin", 7: "destination", 8: "key", 9: "sig"}[k]
+				for n, i := range idx { // every X-Matrix header: one intact signature would be enough
+					val := map[int]string{6: ps[n].origin, 7: ps[n].dest, 8: ps[n].key, 9: ps[n].sig}[k]
+					f.hdr[i].val = f.hdr[i].val + "," + name + "=\"" + val + "\""
+				}
+				f.xmTouched = true
+				f.add(mark{class: fault, kind: "xm_parameter_twice_" + name, oracle: "refuse_header", codes: []int{400, 401}})
+				return true
+			}
 			for n, i := range idx {
 				f.hdr[i].val = ps[n].render(defaultStyle())
 			}
